@@ -282,29 +282,45 @@ def _vox_fns(atoms):
     return names
 
 
+_UC_CACHE = {}  # term id -> (term kept alive, frozenset of card names)
+
+
+def _cards_of(t):
+    tid = t.get_id()
+    hit = _UC_CACHE.get(tid)
+    if hit is not None:
+        return hit[1]
+    if not CARDS:
+        return frozenset()
+    # fast path: textual scan (card constants have reserved name prefixes)
+    sx = t.sexpr()
+    if "card!" not in sx and "vsum!" not in sx:
+        r = frozenset()
+    else:
+        import re
+        r = frozenset(n for n in re.findall(r"(?:card|vsum)![0-9]+", sx) if n in CARDS)
+    _UC_CACHE[tid] = (t, r)
+    return r
+
+
 def used_cards(exprs):
     names = set()
-
-    def walk(t, seen):
-        if t.get_id() in seen:
-            return
-        seen.add(t.get_id())
-        if z3.is_const(t) and t.decl().kind() == z3.Z3_OP_UNINTERPRETED:
-            n = t.decl().name()
-            if n in CARDS:
-                names.add(n)
-        elif z3.is_app(t):
-            for c in t.children():
-                walk(c, seen)
-        elif z3.is_quantifier(t):
-            walk(t.body(), seen)
-    seen = set()
     for e in exprs:
-        walk(e, seen)
+        names |= _cards_of(e)
     return sorted(names)
 
 
+_VENN_CACHE = {}
+
+
 def venn_axioms(names, max_atoms=7):
+    key = (tuple(names), max_atoms)
+    if key not in _VENN_CACHE:
+        _VENN_CACHE[key] = _venn_axioms(names, max_atoms)
+    return list(_VENN_CACHE[key])
+
+
+def _venn_axioms(names, max_atoms=7):
     """BAPA-style reduction: for the cardinality constants `names`, introduce
     one non-negative region size per truth assignment of the atoms of their
     formulas (per index space); a region may be non-empty only if a witness
@@ -1069,8 +1085,18 @@ class NpModule:
     def logical_not(self, a):
         return a.logical_not()
 
+    def _shape_space(self, shape):
+        """arrays created with the same concrete shape live in the same index space"""
+        key = tuple(shape) if isinstance(shape, (tuple, list)) else (shape,)
+        if any(isinstance(d, Sym) for d in key):
+            return Space(ndim=len(key))
+        cache = self.__dict__.setdefault("_spaces", {})
+        if key not in cache:
+            cache[key] = Space(name="shape" + "x".join(str(d) for d in key), ndim=len(key))
+        return cache[key]
+
     def ones(self, shape, dtype=None):
-        sp = Space(ndim=len(shape) if isinstance(shape, tuple) else 1)
+        sp = self._shape_space(shape)
         dt = _dtype_name(dtype) if dtype is not None else "float64"
         n = 1
         for d in (shape if isinstance(shape, tuple) else (shape,)):
@@ -1079,7 +1105,7 @@ class NpModule:
         return VArr(z3.RealVal(1) if dt.startswith("float") else z3.IntVal(1), dt, sp)
 
     def zeros(self, shape, dtype=None):
-        sp = Space(ndim=len(shape) if isinstance(shape, tuple) else 1)
+        sp = self._shape_space(shape)
         dt = _dtype_name(dtype) if dtype is not None else "float64"
         return VArr(z3.RealVal(0) if dt.startswith("float") else z3.IntVal(0), dt, sp)
 
